@@ -107,7 +107,7 @@ func CheckDefault(m *model.Schema, def *model.InputDef, got interface{}) Default
 	}
 	// the clause proper
 	back := coerce.Literal(m, def.Type, node, nil)
-	if Canon(back) == Canon(def.Default) {
+	if Canon(back) == Canon(def.Default) || Canon(back) == Canon(normalizeDefault(m, def.Type, def.Default)) {
 		return DefaultVerdict{OK: true}
 	}
 	// classify the failure (and tolerate custom scalars) structurally
@@ -122,6 +122,53 @@ func CheckDefault(m *model.Schema, def *model.InputDef, got interface{}) Default
 	}
 	return DefaultVerdict{Class: r.class, DefectForm: r.defect,
 		Msg: fmt.Sprintf("reported %q coerces against %s to %s, configured default is %s", text, def.Type, Canon(back), Canon(def.Default))}
+}
+
+// normalizeDefault brings a configured default that was written in a shorter
+// Go form into the form input coercion gives it: a single value configured
+// for a list type is the list of that value, a Go int configured for a Float
+// is that float. (Enum defaults stay internal values, as coerce.Literal
+// returns them.)
+func normalizeDefault(m *model.Schema, t *model.TypeRef, v interface{}) interface{} {
+	if v == nil {
+		return nil
+	}
+	switch t.Kind {
+	case "nonnull":
+		return normalizeDefault(m, t.Of, v)
+	case "list":
+		xs, ok := v.([]interface{})
+		if !ok {
+			return []interface{}{normalizeDefault(m, t.Of, v)}
+		}
+		out := make([]interface{}, len(xs))
+		for i, x := range xs {
+			out[i] = normalizeDefault(m, t.Of, x)
+		}
+		return out
+	}
+	if t.Name == "Float" {
+		if i, ok := v.(int); ok {
+			return float64(i)
+		}
+		return v
+	}
+	if td := m.Type(t.Name); td != nil && td.Kind == model.InputObject {
+		mv, ok := v.(map[string]interface{})
+		if !ok {
+			return v
+		}
+		out := map[string]interface{}{}
+		for k, x := range mv {
+			if f := td.InputField(k); f != nil {
+				out[k] = normalizeDefault(m, f.Type, x)
+			} else {
+				out[k] = x
+			}
+		}
+		return out
+	}
+	return v
 }
 
 // ClassOf is the predicate on (type kind, default value shape) naming the
@@ -273,7 +320,7 @@ func (w *matcher) match(t *model.TypeRef, v interface{}, n nast.Node) matchResul
 				// absent in the literal: coercion supplies the field's own default
 				switch {
 				case !present && !f.HasDefault:
-				case present && f.HasDefault && Canon(want) == Canon(f.Default):
+				case present && f.HasDefault && Canon(normalizeDefault(w.m, f.Type, want)) == Canon(normalizeDefault(w.m, f.Type, f.Default)):
 				default:
 					return matchResult{class: "input-object"}
 				}
@@ -300,7 +347,7 @@ func (w *matcher) match(t *model.TypeRef, v interface{}, n nast.Node) matchResul
 			w.custom++
 			return matchResult{ok: true}
 		}
-		if Canon(coerce.Literal(w.m, t, n, nil)) == Canon(v) {
+		if lit := Canon(coerce.Literal(w.m, t, n, nil)); lit == Canon(v) || lit == Canon(normalizeDefault(w.m, t, v)) {
 			return matchResult{ok: true}
 		}
 		return matchResult{class: strings.ToLower(t.Name)}
